@@ -2,10 +2,10 @@
  * KSI_ERR_toString (ksi_err_toPrinter + printer_buf_wrapper), with the real KSI_strncpy / KSI_vsnprintf
  * (compatibility.c) and the vsnprintf contract model (any int).
  * The context is set up as KSI_CTX_new does for the ring (base.c: errors_size = KSI_ERR_STACK_LEN, errors =
- * KSI_malloc(sizeof(KSI_ERR) * errors_size), errors_count = 0) except that errors_size = RING (see below); the rest of KSI_CTX_new (trust store, network
+ * KSI_malloc(sizeof(KSI_ERR) * errors_size), errors_count = 0); the rest of KSI_CTX_new (trust store, network
  * providers, global init) is not executed.  errors_count then starts at START (concrete per instance: the ring
- * position is a shape; a separate instance leaves it symbolic) and NPUSH errors are pushed with symbolic
- * status / line / external code and short symbolic file name and message (or NULL).
+ * position is a shape; a separate instance leaves it symbolic) and NPUSH errors are pushed with concrete
+ * non-OK status, symbolic line / external code and short symbolic file name and message (or NULL).
  * Checked: every push lands in slot (count mod ring size) with its fields and NUL-terminated strings, the count grows by
  * one per non-OK push, nothing outside the ring or the output buffer is touched, rendering terminates. */
 #include "verif.h"
@@ -24,11 +24,10 @@
 #define SL 3   /* length of the symbolic strings */
 
 
-/* RING: number of ring entries.  KSI_CTX_new uses KSI_ERR_STACK_LEN = 16; all ring code reads the size from
- * ctx->errors_size.  A 16-entry ring is a 33 KiB object whose bit-level encoding exhausts memory (measured 7 GB,
- * no answer in 5 min), so the instances use 1..3 entries; stated in the manifest. */
+/* RING: number of ring entries: KSI_ERR_STACK_LEN = 16 as in KSI_CTX_new; some instances use a smaller ring (all ring
+ * code reads the size from ctx->errors_size) to reach several wrap-arounds cheaply. */
 #ifndef RING
-#define RING 2
+#define RING KSI_ERR_STACK_LEN
 #endif
 static struct KSI_CTX_st C;
 static KSI_ERR ring[RING];
@@ -50,7 +49,7 @@ void harness(void) {
 	KSI_ERR_push(ctx, KSI_OK, 0, "f", 1, "m");                           /* no error: ignored */
 	CHECK(C.errors_count == start, "C12.errpush pushes without context or with KSI_OK are ignored");
 	for (unsigned k = 0; k < NPUSH; k++) {
-		st[k] = ND(int, status); ASSUME(st[k] != KSI_OK);
+		st[k] = (k & 1) ? KSI_OUT_OF_MEMORY : KSI_INVALID_FORMAT;   /* concrete non-OK status: a symbolic one makes 'ignored or stored' and with it the ring position symbolic */
 		ext[k] = ND(long, ext); ln[k] = ND(unsigned, line); nomsg[k] = ND_BOOL(nomsg);
 		for (unsigned i = 0; i < SL; i++) { fn[k][i] = (char)ND(u8, fnch); msg[k][i] = (char)ND(u8, msgch); }
 		fn[k][SL] = 0; msg[k][SL] = 0;
